@@ -60,5 +60,11 @@ def shard_loop(prop, args, engine):
             emit(v)
         if rec.get("sample") is not None:
             emit({"k": "sample", "i": i, "sample": rec["sample"]})
+    if hasattr(engine, "finish"):
+        # end-of-shard checks over the whole history of this worker process
+        for v in engine.finish(args) or []:
+            v = dict(v)
+            v.update({"k": "viol", "i": args.runs + args.shard, "seed_i": 0})
+            emit(v)
     emit({"k": "stats", "stats": engine.stats()})
     emit({"k": "done", "runs": n, "cut": cut})
